@@ -4,13 +4,16 @@ import QipVerif.Model.Render
 
 Request (one line):
 
-`render n=N c=C padn=.. padd=.. ext=.. align=0|1 [labels=<lab>;<lab>;…;] ops=<op>/<op>/…`
+`render n=N c=C padn=.. padd=.. ext=.. align=0|1 [var=sin] [labels=<lab>;<lab>;…;] ops=<op>/<op>/…`
+
+* `padn/padd` = `gate_pad` as an exact fraction (`padn` may be negative, `gate_pad ≤ -1` is refused: `bad-op`)
+* `var=` three digits: spanFix, insideNode, globalBox of `Render.Variant` (absent = `000`, the shipped tree)
 
 * a string is the list of its code points in decimal joined by `.` (empty string = nothing)
 * `labels=` : every label is *terminated* by `;` (`labels=` is the empty list, key absent = `None`)
 * `<op>` is `g:<name>:<arg_label>:<targets>:<controls>` with `<arg_label>` = `-` (None) or
   `L<string>`, `<targets>` comma separated, `<controls>` = `-` (None) or `c<comma separated>`;
-  or `m:<targets>:<classical_store>`.
+  or `m:<targets>:<classical_store>`; or `G:<name>:<arg_label>` (gate with targets = controls = None).
 
 Answer: `ok <row>|<row>|…` (rows in print order, each row a `.`-joined code point list)
 or `err index` / `err value`.  `widths …` answers `ok w1,w2,…` (row lengths only).
@@ -35,6 +38,11 @@ def parseOp (s : String) : Option Op :=
     let cs ← if cs = "-" then pure none
              else if cs.startsWith "c" then (parseNats (dropFirst cs)).map some else none
     pure (.gate name lab ts cs)
+  | ["G", name, lab] => do
+    let name ← parseStr name
+    let lab ← if lab = "-" then pure none
+              else if lab.startsWith "L" then (parseStr (dropFirst lab)).map some else none
+    pure (.glob name lab)
   | ["m", ts, store] => do
     let ts ← parseNats ts
     let st ← store.toNat?
@@ -49,23 +57,33 @@ def parseLabels (s : String) : Option (List Str) :=
 
 def showStr (r : Str) : String := ".".intercalate (r.map fun c => toString c.toNat)
 
-def parseReq (fs : List String) : Option (Style × Circ) := do
+def parseVariant (s : String) : Option Variant :=
+  match s.toList with
+  | [a, b, c] =>
+    if [a, b, c].all (fun x => x = '0' || x = '1') then
+      some { spanFix := a = '1', insideNode := b = '1', globalBox := c = '1' }
+    else none
+  | _ => none
+
+def parseReq (fs : List String) : Option (Variant × Style × Circ) := do
   let n ← fNat? fs "n"
   let c ← fNat? fs "c"
-  let padn ← fNat? fs "padn"
+  let padn ← fInt? fs "padn"
   let padd ← fNat? fs "padd"
   if padd = 0 then none
+  if padn ≤ -(padd : Int) then none
+  let v ← parseVariant ((field? fs "var").getD "000")
   let ext ← fInt? fs "ext"
   let align ← fNat? fs "align"
   let labels ← match field? fs "labels" with
     | none => pure none
     | some l => (parseLabels l).map some
   let ops ← parseOps ((field? fs "ops").getD "")
-  pure ({ padNum := padn, padDen := padd, ext := ext, align := align != 0, labels := labels },
+  pure (v, { padNum := padn, padDen := padd, ext := ext, align := align != 0, labels := labels },
         { N := n, C := c, ops := ops })
 
 def errName : Err → String
-  | .index => "index" | .value => "value"
+  | .index => "index" | .value => "value" | .type => "type"
 
 def step (line : String) : String :=
   let fs := fields line
@@ -73,15 +91,15 @@ def step (line : String) : String :=
   | some "render" =>
     match parseReq fs with
     | none => "bad-op"
-    | some (sty, c) =>
-      match render sty c with
+    | some (v, sty, c) =>
+      match render v sty c with
       | .ok rows => "ok " ++ "|".intercalate (rows.map showStr)
       | .error e => "err " ++ errName e
   | some "widths" =>
     match parseReq fs with
     | none => "bad-op"
-    | some (sty, c) =>
-      match render sty c with
+    | some (v, sty, c) =>
+      match render v sty c with
       | .ok rows => "ok " ++ showNats (rows.map List.length)
       | .error e => "err " ++ errName e
   | _ => "bad-op"
